@@ -66,7 +66,7 @@ Definition dec_cscript (s : sexp) : option cscript :=
   | L [S c; L items; L segs; L [S e; I et]] =>
     let? its := dec_list dec_item items in
     let? sg := dec_list dec_seg segs in
-    let en := if is_sym e "close" then Some (et, false) else if is_sym e "reset" then Some (et, true) else None in
+    let en := if is_sym e "close" || is_sym e "fullclose" then Some (et, false) else if is_sym e "reset" then Some (et, true) else None in
     Some (mkCS its sg en)
   | _ => None
   end.
@@ -181,6 +181,9 @@ Record scn : Type := mkScn {
   s_cancel : Z;
   s_sens : bool;
   s_recvfrom : Z;
+  s_subconn : Z;
+  s_cbsleep : Z;
+  s_cbwrite : bytes;
   s_conns : list cscript;
   s_orcb : table;
   s_orca : table;
@@ -192,7 +195,7 @@ Record scn : Type := mkScn {
 
 Definition dec_scn (s : sexp) : option scn :=
   match s with
-  | L [S k; S _id; L [S _cfg; S entry; I usecfg; I noc; I rec; I lis; I can; I sens; I recvfrom];
+  | L [S k; S _id; L [S _cfg; S entry; I usecfg; I noc; I rec; I lis; I can; I sens; I recvfrom; I subconn; I cbsleep; B cbwrite];
        L conns; L (S _orc :: orc); L [S _subs; I substart; L subs]; L (S _rorc :: rorc); L (S _obs :: obs)] =>
     if is_sym k "scn" then
       let? cs := dec_list dec_cscript conns in
@@ -200,7 +203,7 @@ Definition dec_scn (s : sexp) : option scn :=
       let? sb := dec_list dec_submitter subs in
       let? ro := dec_list dec_pair rorc in
       let? ob := dec_list dec_oev obs in
-      Some (mkScn (is_sym entry "detector") (negb (usecfg =? 0)) noc rec lis can (negb (sens =? 0)) recvfrom
+      Some (mkScn (is_sym entry "detector") (negb (usecfg =? 0)) noc rec lis can (negb (sens =? 0)) recvfrom subconn cbsleep cbwrite
                   cs (fst o) (snd o) substart sb ro ob)
     else None
   | _ => None
@@ -355,7 +358,7 @@ Definition compare_client (s : scn) (extra : Z -> option bytes) : option sexp :=
       | (i, recv, kind, _) =>
         let c := nth (Z.to_nat i) (s_conns s) (mkCS [] [] None) in
         let is_reset := match cs_end c with Some (_, true) => true | _ => false end in
-        let expect := app_tr (nth (Z.to_nat i) wrote []) (match extra i with Some e => e | None => [] end) in
+        let expect := app_tr (nth (Z.to_nat i) wrote []) (app_tr (s_cbwrite s) (match extra i with Some e => e | None => [] end)) in
         negb is_reset && (negb (bytes_eqb recv expect) || (kind =? 0))
       end) peers in
   if negb (Nat.eqb (List.length peers) (List.length accs)) || bad_peer then
@@ -455,6 +458,19 @@ Fixpoint for_conns {A} (f : nat -> grp -> option A) (i : nat) (gs : list grp) : 
   | g :: r => match f i g with Some x => Some x | None => for_conns f (Datatypes.S i) r end
   end.
 
+
+(* ---------- what the writer goroutine adds (C09, C12): oracle tables from the submissions ---------- *)
+Definition units_bin (sb : submission) : list bytes := map fst (sb_msgs sb).
+Definition units_asc (sb : submission) : list bytes := sb_lines sb.
+Definition marshal_table (s : scn) : table := List.concat (map (fun l => List.concat (map sb_msgs l)) (s_subs s)).
+Definition enc_lookup (s : scn) (msgs : list bytes) : list bytes :=
+  match find (fun sb => list_eqb bytes_eqb (units_bin sb) msgs) (List.concat (s_subs s)) with
+  | Some sb => sb_lines sb
+  | None => [[0]]
+  end.
+Definition written_for (s : scn) (bin : bool) (order : list submission) : bytes :=
+  written bytes (lookup (marshal_table s)) (enc_lookup s) bin (map units_bin order).
+
 (* Environment assumption of the probe phase: the single conn.Read returns what the FIRST
    segment holds.  When the client process is scheduled so late that its read completes only
    after the peer has already sent the second segment, both are returned at once and the
@@ -491,7 +507,8 @@ Definition run_with (judge : scn -> sexp) (line : list Z) : list Z :=
   match parse_sexp line with
   | Some sx =>
     match dec_scn sx with
-    | Some s => print_sexp (if negb (s_det s) && late_negotiation s then mism "timing" "negotiation-read-late" [] else judge s)
+    | Some s => print_sexp (if obs_panic (s_obs s) then L [sym "specfail"; sym "client-panic"; L []]
+                            else if negb (s_det s) && late_negotiation s then mism "timing" "negotiation-read-late" [] else judge s)
     | None => print_sexp (L [sym "badcase"; sym "decode"])
     end
   | None => print_sexp (L [sym "badcase"; sym "parse"])
